@@ -23,6 +23,7 @@ LEVEL_TEXT = ("The stated space - base pointers of depth 0-3 over 9 tokens x ste
               "and string bases; each result must print as the reference tokens' RFC 6901 spelling (or carry the key marker), "
               "resolve on a document built to contain it, and forbidden applications must raise RelativeJSONPointerError; "
               "str(RelativeJSONPointer(text)) == text. Hypothesis extends tokens to arbitrary text and offsets to 1-6 digits.")
+LEVEL_TEXT += ' Token alphabets include percent sequences and blank-edged tokens.'
 BUDGET_S = {"quick": 60, "thorough": 400}
 RULE = ("Exhaustive product described above, plus random bases/suffixes over arbitrary text without backslashes and multi-digit "
         "offsets. Non-trivial = steps >= 1 together with an offset or a non-empty suffix, or a forbidden application; distinct "
